@@ -94,7 +94,9 @@ func runC12(r *mon.Run, replay string) {
 		return
 	}
 
-	n := r.Pick(40, 600)
+	base := r.Pick(40, 600)
+	n := base + r.Pick(8, 120) // appended: alternately "capsync" and "cpahead" clusters
+	c12Base.Store(int64(base))
 	workers := r.Pick(12, 12)
 	parallel(n, workers, func(i int) {
 		special := c12SpecialFor(i)
@@ -108,6 +110,8 @@ func runC12(r *mon.Run, replay string) {
 		r.Inconclusive("development filter VERIF_C12_ONLY is set")
 	}
 	r.Floor("clusters_converged", int64(n*8/10))
+	r.Floor("clusters_with_capped_servers_and_more_than_100_blocks", int64(r.Pick(4, 50)))
+	r.Floor("clusters_with_checkpoint_node_ahead_of_a_forked_genesis_node", int64(r.Pick(4, 50)))
 	r.Floor("manager_calls_audited:AddBlocks", 20)
 	r.Floor("manager_calls_audited:AddValidatedV2Blocks", 5)
 	r.Floor("reorgs_observed", 10)
@@ -165,7 +169,17 @@ func genFreshCheckpoint(r *mon.Run, stream uint64) (clusterCase, *chainlab.Tree,
 }
 
 // c12SpecialFor maps a case index to its sub-family.
+// c12Base is the number of cases of the original mapping; cases beyond it
+// alternate between the two appended families.
+var c12Base atomic.Int64
+
 func c12SpecialFor(i int) string {
+	if b := int(c12Base.Load()); b > 0 && i >= b {
+		if (i-b)%2 == 0 {
+			return "capsync" // servers with MaxSendBlocks caps that do not divide 100, more than 100 blocks to sync
+		}
+		return "cpahead" // a checkpoint-bootstrapped node ahead of a genesis node on a lighter fork branching just above the checkpoint
+	}
 	switch i % 10 {
 	case 1: // sync distance larger than one header batch (honest lab peer serving short SendHeaders batches)
 		return "shortheaders"
@@ -495,7 +509,144 @@ func genHeavyShort(r *mon.Run, stream uint64) (clusterCase, *chainlab.Tree, []*c
 	return cc, t, tips, make([]*chainlab.Node, cc.N)
 }
 
+var c12Caps = []uint64{1, 7, 30, 33, 49, 51, 99}
+
+// genCapSync: a fresh node (node 0) and one to three servers that all hold the
+// same chain, 130..260 blocks ahead, each serving at most `cap` blocks per
+// request with caps that do not divide the 100-block request; the node has to
+// ask for the outstanding remainder of a request over and over.
+func genCapSync(r *mon.Run, stream uint64) (clusterCase, *chainlab.Tree, []*chainlab.Node, []*chainlab.Node) {
+	rng := r.RNG(stream)
+	below := rng.IntN(2) == 0
+	var p chainlab.Params
+	regime := "mix"
+	trunkLen := 0
+	switch {
+	case below && rng.IntN(3) == 0:
+		regime = "v1only"
+		p = chainlab.RandomParams(regime, rng)
+		trunkLen = 1 + rng.IntN(10)
+	case below:
+		p = chainlab.RandomParams(regime, rng)
+		p.Allow = uint64(3 + rng.IntN(5))
+		p.Require = p.Allow + 400
+		p.FinalCut = p.Require + 2
+		trunkLen = 1 + rng.IntN(int(p.Allow)+4)
+	case rng.IntN(2) == 0:
+		regime = "v2only"
+		p = chainlab.RandomParams(regime, rng)
+		trunkLen = 1 + rng.IntN(10)
+	default:
+		p = chainlab.RandomParams(regime, rng)
+		// before, at or after the require height: some requests cross it
+		trunkLen = max(1, int(p.Require)-3+rng.IntN(8))
+	}
+	env := chainlab.NewEnv(p)
+	itarget := []byte{0x08, 0x10, 0x40, 0xFF}[rng.IntN(4)]
+	env.Net.InitialTarget = types.BlockID{itarget}
+	t := chainlab.NewTree(env, rng)
+	prof := chainlab.Profile{MaxTxns: 3}
+	cc := clusterCase{Stream: stream, Regime: regime, Params: p, Special: "capsync", InitialTarget: itarget, Topology: "star", Cap: 8, TrunkLen: trunkLen}
+	trunk := p2plab.GrowMixed(t, t.Root, trunkLen, 2, prof)
+	w := p2plab.GrowMixed(t, trunk, 130+rng.IntN(131), 6, prof)
+	cc.N = 2 + rng.IntN(3)
+	tips := []*chainlab.Node{trunk}
+	if rng.IntN(3) == 0 {
+		// the fresh node sits on a short fork of its own
+		tips[0] = p2plab.GrowMixed(t, trunk.Ancestor(trunk.Height-uint64(min(trunkLen, rng.IntN(2)))), 1+rng.IntN(3), 2, prof)
+	}
+	cc.Winner = 1
+	for i := 1; i < cc.N; i++ {
+		tips = append(tips, w)
+		e := [2]int{0, i}
+		if rng.IntN(2) == 0 {
+			e = [2]int{i, 0}
+		}
+		cc.Edges = append(cc.Edges, e)
+	}
+	rng.Shuffle(len(cc.Edges), func(i, j int) { cc.Edges[i], cc.Edges[j] = cc.Edges[j], cc.Edges[i] })
+	for i, x := range tips {
+		fh := chainlab.CommonAncestor(x, trunk).Height
+		bd := branchDesc{Node: i, ForkHeight: fh, Len: int(x.Height - fh), TipHeight: x.Height, TipNode: x.Idx, Checkpoint: -1, MaxSend: 100}
+		if i > 0 {
+			bd.MaxSend = c12Caps[rng.IntN(len(c12Caps))]
+		}
+		cc.Branches = append(cc.Branches, bd)
+	}
+	return cc, t, tips, make([]*chainlab.Node, cc.N)
+}
+
+// genCheckpointAhead: node 1 (B) was bootstrapped from a checkpoint at height H
+// above the require height and has advanced 30..37 blocks, so that none of its
+// history entries lies at or below H+5 and the entries further down are empty.
+// Node 0 (A) is synced from genesis and sits on a LIGHTER fork that branches at
+// H+1, H+2 or H+5; optionally node 2 (C) hangs behind A. None of B's history
+// entries is on A's chain, so B finds no common history with A, which must not
+// cost the connection: A fetches the heavier chain from B.
+func genCheckpointAhead(r *mon.Run, stream uint64) (clusterCase, *chainlab.Tree, []*chainlab.Node, []*chainlab.Node) {
+	rng := r.RNG(stream)
+	regime := []string{"mix", "v2only"}[rng.IntN(2)]
+	p := chainlab.RandomParams(regime, rng)
+	env := chainlab.NewEnv(p)
+	itarget := []byte{0x08, 0x10, 0x40, 0xFF}[rng.IntN(4)]
+	env.Net.InitialTarget = types.BlockID{itarget}
+	t := chainlab.NewTree(env, rng)
+	prof := chainlab.Profile{MaxTxns: 3}
+	cc := clusterCase{Stream: stream, Regime: regime, Params: p, Special: "cpahead", InitialTarget: itarget, Topology: "line", Cap: 8}
+	h := int(p.Require) + 1 + rng.IntN(12)
+	cc.TrunkLen = h
+	cp := p2plab.GrowMixed(t, t.Root, h, 2, prof)
+	if cp.Block.V2 == nil {
+		cc.N = 0
+		return cc, t, nil, nil
+	}
+	d := []int{1, 2, 5}[rng.IntN(3)]
+	cc.FreshGap = d // reused: distance of the fork point above the checkpoint
+	fp := p2plab.GrowMixed(t, cp, d, 2, prof)
+	bTip := p2plab.GrowMixed(t, fp, 30+rng.IntN(8)-d, 3, prof)
+	aTip := p2plab.GrowMixed(t, fp, 1+rng.IntN(6), 2, prof)
+	if !bTip.L.State.SufficientlyHeavierThan(aTip.L.State) {
+		cc.N = 0
+		return cc, t, nil, nil
+	}
+	tips := []*chainlab.Node{aTip, bTip}
+	cps := []*chainlab.Node{nil, cp}
+	e := [2]int{0, 1}
+	if rng.IntN(2) == 0 {
+		e = [2]int{1, 0}
+	}
+	cc.Edges = [][2]int{e}
+	cc.N = 2
+	if rng.IntN(2) == 0 {
+		// a third node that can only be reached through A
+		cc.N = 3
+		tips = append(tips, aTip.Ancestor(aTip.Height-uint64(rng.IntN(3))))
+		cps = append(cps, nil)
+		e2 := [2]int{2, 0}
+		if rng.IntN(2) == 0 {
+			e2 = [2]int{0, 2}
+		}
+		cc.Edges = append(cc.Edges, e2)
+		rng.Shuffle(len(cc.Edges), func(i, j int) { cc.Edges[i], cc.Edges[j] = cc.Edges[j], cc.Edges[i] })
+	}
+	cc.Winner = 1
+	for i, x := range tips {
+		bd := branchDesc{Node: i, ForkHeight: fp.Height, Len: int(x.Height) - int(fp.Height), TipHeight: x.Height, TipNode: x.Idx, Checkpoint: -1, MaxSend: 100}
+		if cps[i] != nil {
+			bd.Checkpoint = int64(cps[i].Height)
+		}
+		cc.Branches = append(cc.Branches, bd)
+	}
+	return cc, t, tips, cps
+}
+
 func genCluster(r *mon.Run, stream uint64, special string) (clusterCase, *chainlab.Tree, []*chainlab.Node, []*chainlab.Node) {
+	if special == "capsync" {
+		return genCapSync(r, stream)
+	}
+	if special == "cpahead" {
+		return genCheckpointAhead(r, stream)
+	}
 	if special == "otherfork" {
 		return genOtherFork(r, stream)
 	}
@@ -852,6 +1003,8 @@ func runCluster(r *mon.Run, stream uint64, special string) {
 	var convAt time.Duration
 	iter := 0
 	wt := newWaiter(act, c12Bound)
+	edgeUp, edgeLost := map[string]bool{}, map[string]bool{}
+	var lostEdges []string
 	for {
 		iter++
 		all := true
@@ -880,7 +1033,20 @@ func runCluster(r *mon.Run, stream uint64, special string) {
 		}
 		// (clusters with a freshly bootstrapped checkpoint node get no help: an
 		// honest node dropping an honest peer is exactly what is under test there)
-		if iter%20 == 0 && cc.Special != "freshcp" {
+		if cc.Special == "cpahead" || cc.Special == "freshcp" {
+			// all-honest cluster without re-dialling: an established edge must stay
+			for _, e := range cc.Edges {
+				k := fmt.Sprint(e)
+				up := nodes[e[0]].HasPeer(nodes[e[1]].Addr) && nodes[e[1]].HasPeer(nodes[e[0]].Addr)
+				if up {
+					edgeUp[k] = true
+				} else if edgeUp[k] && !edgeLost[k] && !(nodes[e[0]].HasPeer(nodes[e[1]].Addr) || nodes[e[1]].HasPeer(nodes[e[0]].Addr)) {
+					edgeLost[k] = true
+					lostEdges = append(lostEdges, fmt.Sprintf("n%d - n%d after %d ms", e[0], e[1], time.Since(start).Milliseconds()))
+				}
+			}
+		}
+		if iter%20 == 0 && cc.Special != "freshcp" && cc.Special != "cpahead" {
 			for _, e := range cc.Edges {
 				if lab != nil && (e[0] == cc.N || e[1] == cc.N) {
 					real := nodes[e[0]+e[1]-cc.N]
@@ -1044,6 +1210,12 @@ func runCluster(r *mon.Run, stream uint64, special string) {
 			vsig += ":short-header-batches"
 		} else if cc.Special == "heavyshort" {
 			vsig += ":heaviest-chain-is-shorter"
+		} else if len(lostEdges) > 0 {
+			vsig += ":honest-peer-disconnected"
+		} else if cc.Special == "capsync" {
+			vsig += ":capped-servers"
+		} else if cc.Special == "cpahead" {
+			vsig += ":checkpoint-node-ahead"
 		} else if small {
 			vsig += ":max-send-blocks-below-100"
 		}
@@ -1064,6 +1236,26 @@ func runCluster(r *mon.Run, stream uint64, special string) {
 			}
 		}
 		r.Violation("honest-peer-banned:"+cls, "an honest node called PeerStore.Ban for an honest peer", cc, map[string]any{"bans": bans, "nodes": getReps(), "tree": summarize(t)})
+	}
+	if len(lostEdges) > 0 && honestBanClass(nodes) == "" {
+		fmt.Printf("note: C12 stream=%d honest-peer-disconnected %v\n", stream, lostEdges)
+		r.Violation("honest-peer-disconnected", "in an all-honest cluster an established connection was dropped by one of the nodes (nobody re-dials in this cluster shape)", cc, map[string]any{"lost_edges": lostEdges, "nodes": getReps(), "tree": summarize(t)})
+	}
+	if cc.Special == "capsync" {
+		r.Count("clusters_with_capped_servers_and_more_than_100_blocks", 1)
+		for _, b := range cc.Branches[1:] {
+			r.Count(fmt.Sprintf("capped_servers_with_max_send_blocks:%d", b.MaxSend), 1)
+		}
+		if converged {
+			r.Count("clusters_with_capped_servers_converged", 1)
+		}
+	}
+	if cc.Special == "cpahead" {
+		r.Count("clusters_with_checkpoint_node_ahead_of_a_forked_genesis_node", 1)
+		r.Count(fmt.Sprintf("checkpoint_ahead_fork_point:H+%d", cc.FreshGap), 1)
+		if converged {
+			r.Count("clusters_with_checkpoint_node_ahead_converged", 1)
+		}
 	}
 	if cc.Special == "otherfork" {
 		r.Count("clusters_with_peer_on_another_fork_as_block_worker", 1)
